@@ -38,6 +38,15 @@ def oracle(env, ev):
         rec = env.jobs[j]
         h = rec['h']
         env.soft_sent[j] += 1
+        # ground truth (the reference worker's own record, not the handle's
+        # claim): the signalled process took this job and was not told to
+        # refuse it -- "raised inside the process running that job"
+        part = rec['parts'].get(None) or {}
+        if part.get('pid') != pid or part.get('state') not in (
+                'taken', 'done', 'lost'):
+            return ('soft-limit signal sent to %r on behalf of job %d, which '
+                    'never ran there (its part: %r; the process is now %s)' % (
+                        pid, j, part, w and (w.phase, w.task and w.task[:2])))
         want = rec['t'].get('soft') or pk.get('soft_timeout')
         if h.ready():
             return ('soft-limit signal sent for job %d whose result had '
@@ -63,6 +72,9 @@ def oracle(env, ev):
             return ('job %d: effective soft limit %r, expected %r' % (
                 j, h._soft_timeout, want))
         tos = [c for c in env.cb[j] if c[0] == 'to' and c[2]]
+        if tos and rec.get('refused'):
+            return ('timeout callback(soft=True) ran for job %d, which was '
+                    'refused and never run' % j)
         if len(tos) > 1:
             return 'timeout callback(soft=True) ran %d times for job %d' % (
                 len(tos), j)
@@ -116,6 +128,24 @@ def configs(tier):
                         procs=2, jobs=[j0, ap], pool=pk, alphabet=A, depth=d,
                         max_states=ms, final='harness.c01:final',
                         oracle='harness.c06:oracle'))
+    # acknowledgement handshake: a job cancelled before acceptance is
+    # refused by its worker, which goes on with the next job -- nothing is
+    # signalled on behalf of the refused job
+    As = dict(A, die=(), cancel=True)
+    for procs in (1, 2):
+        out.append(dict(name='synack/%dproc/job(s=1)+cancel' % procs,
+                        procs=procs,
+                        jobs=[dict(kind='apply', fn='ok', soft=1.0), ap],
+                        pool=dict(base, enable_timeouts=True, synack=True),
+                        alphabet=As, depth=d + 1, max_states=ms,
+                        final='harness.c01:final',
+                        oracle='harness.c06:oracle'))
+    out.append(dict(name='synack/pool(s=1,h=3)+cancel', procs=1,
+                    jobs=[ap, ap],
+                    pool=dict(base, enable_timeouts=True, synack=True,
+                              soft_timeout=1.0, timeout=3.0),
+                    alphabet=As, depth=d + 1, max_states=ms,
+                    final='harness.c01:final', oracle='harness.c06:oracle'))
     return out
 
 
